@@ -1401,7 +1401,7 @@ def topk(a, k, axis=-1, split_every=None):
         keepdims=True,
         dtype=a.dtype,
         split_every=split_every,
-        output_size=abs(k),
+        output_size=builtins.min(abs(k), a.shape[axis]),
     )
 
 
@@ -1472,7 +1472,7 @@ def argtopk(a, k, axis=-1, split_every=None):
         dtype=np.intp,
         split_every=split_every,
         concatenate=False,
-        output_size=abs(k),
+        output_size=builtins.min(abs(k), a.shape[axis]),
         meta=meta,
     )
 
